@@ -52,7 +52,8 @@ type plan struct {
 	// threshold of valid partial reveals aggregates to exactly this value.
 	groupRandao eth2p0.BLSSignature
 
-	aggPlan // the aggregation pipelines (aggkinds_test.go)
+	aggPlan  // the aggregation pipelines (aggkinds_test.go)
+	morePlan // proposer variants (builder/blinded, Deneb block contents), exits, builder registrations (morekinds_test.go)
 
 	mu       sync.Mutex
 	served   map[eth2p0.Root]string // blocks the nodes' beacon nodes produced for propSlot: root -> "n<i>/view<v>"
@@ -232,11 +233,9 @@ func installBeacon(cl *cluster.Cluster, p *plan, beaconErrs bool) {
 			if cl.View != nil {
 				view = cl.View(n.Idx, uint64(opts.Slot))
 			}
-			blk := viewBlock(view, uint64(opts.Slot), p.propVal, opts.RandaoReveal, opts.Graffiti)
-			root, err := blk.HashTreeRoot()
-			if err != nil {
-				panic(err)
-			}
+			// the run's proposal variant: a full Capella block, or (morekinds_test.go) a blinded Capella
+			// block / Deneb block contents
+			vp, root := p.viewProposal(n.Idx, view, opts)
 			p.mu.Lock()
 			g := opts.Graffiti
 			p.graffiti = &g
@@ -245,7 +244,7 @@ func installBeacon(cl *cluster.Cluster, p *plan, beaconErrs bool) {
 			}
 			p.mu.Unlock()
 			verifrt.Note("n%d beacon proposal slot %d view %d root %x", n.Idx, opts.Slot, view, root[:4])
-			return &eth2api.VersionedProposal{Version: eth2spec.DataVersionCapella, Capella: blk}, nil
+			return vp, nil
 		}
 	}
 }
@@ -259,6 +258,9 @@ func runProposerVC(cl *cluster.Cluster, n *cluster.Node, p *plan) error {
 	resp, err := n.VAPI.Proposal(n.Ctx, &eth2api.ProposalOpts{Slot: eth2p0.Slot(p.propSlot), RandaoReveal: reveal})
 	if err != nil {
 		return err
+	}
+	if p.propKind != propCapella {
+		return submitVariantProposal(cl, n, share, resp.Data) // morekinds_test.go
 	}
 	if resp.Data.Version != eth2spec.DataVersionCapella || resp.Data.Capella == nil || resp.Data.Blinded {
 		return errors.New("validator client: unexpected block version")
@@ -282,6 +284,9 @@ func proposerAt(ctx context.Context, cl *cluster.Cluster, i int, byz bool) {
 	n.Sched.Trigger(n.Ctx, core.NewProposerDuty(p.propSlot), proposerDef(p.propVal, p.propSlot))
 	if byz {
 		verifrt.Go(func() { byzantineProposer(ctx, cl, i) })
+		if p.propKind == propDeneb {
+			verifrt.Go(func() { byzantineDecidedBlobs(ctx, cl, i) }) // morekinds_test.go
+		}
 	}
 	mode := verifrt.Intn("w", 8)
 	if mode == 7 {
@@ -328,6 +333,9 @@ func byzantineProposer(ctx context.Context, cl *cluster.Cluster, i int) {
 			view = verifrt.Intn("a", 3) // or a legitimate candidate that may differ from the decided one
 		}
 		block := func(view int, slot uint64, key tbls.PrivateKey, shareIdx int) core.ParSignedData {
+			if p.propKind != propCapella {
+				return byzVariantBlock(cl, p, view, slot, key, shareIdx, graffiti) // morekinds_test.go
+			}
 			blk := viewBlock(view, slot, v, p.groupRandao, graffiti)
 			if g := p.anyServedGraffiti(); g != nil {
 				blk.Body.Graffiti = *g // exactly what an honest beacon node of that view serves
@@ -458,6 +466,10 @@ func (o *oracle) onProposal(b cluster.Broadcast, key string, sp core.VersionedSi
 	c, cl := o.c, o.cl
 	val := o.validator(b)
 	if val == nil {
+		return
+	}
+	if cur.propKind != propCapella {
+		o.onVariantProposal(b, key, val, sp) // morekinds_test.go
 		return
 	}
 	if sp.Version != eth2spec.DataVersionCapella || sp.Blinded || sp.Capella == nil || sp.Capella.Message == nil || sp.Capella.Message.Body == nil {
